@@ -683,6 +683,7 @@ typedef momo::MemPoolParams<1, 0> P1;	// one block per buffer, no cached free bl
 
 int main(int argc, char** argv)
 {
+	setvbuf(stdout, nullptr, _IOLBF, 0);	// FAIL lines must survive a sanitizer abort
 	Ctx c = parseArgs(argc, argv);
 #if TF_PART == 0 || TF_PART == 1
 	runCfg<SetCf<KT, momo::TreeNode<1, 1, P1, true>, true, false, true, true>>(c, "tf_set_triv_c1", 1, true, 10, 780);
